@@ -204,6 +204,30 @@ struct Pool {
       return;
     }
     auto V = [&](int v) { return B->vars[v]; };
+    if (op < 5 && r.chance(1, 4)) { // box: finite bounds on every variable around a fresh small state
+      lastop = "box";
+      CState s = rand_state(), s2;
+      for (int v : ints) s.v[v] = r.range(-9, 9);
+      s2 = s;
+      z_lin_cst_sys_t sys;
+      std::string d;
+      for (int v : ints) {
+        i128 lo = s.v[v] - (i128)r.below(3), hi = s.v[v] + (i128)r.below(3);
+        s2.v[v] = r.coin() ? lo : hi;
+        sys += z_lin_cst_t(z_lin_exp_t(V(v)) - to_z(hi), z_lin_cst_t::INEQUALITY);
+        sys += z_lin_cst_t(to_z(lo) - z_lin_exp_t(V(v)), z_lin_cst_t::INEQUALITY);
+        d += p.vars[v].name + " in [" + i128str(lo) + "," + i128str(hi) + "] ";
+      }
+      note("A" + std::to_string(i) + "=top; += box " + d);
+      A[i] = dom.make();
+      A[i] += sys;
+      W[i].clear();
+      W[i].push_back(s);
+      W[i].push_back(s2);
+      changed(i, false);
+      check(i);
+      return;
+    }
     if (op < 5) { // assign
       lastop = "assign";
       int x = any_int();
